@@ -253,6 +253,12 @@ type Tokenizer struct {
 	dialect    keywords.SQLDialect // SQL dialect for dialect-specific keyword recognition
 	logger     *slog.Logger        // Optional structured logger for verbose tracing
 	Comments   []models.Comment    // Comments captured during tokenization
+
+	// Last offset converted by toSQLPosition, so monotone queries resume instead of rescanning
+	posCacheValid bool
+	posCacheIndex int
+	posCacheLine  int // index into lineStarts
+	posCacheCol   int
 }
 
 // New creates a new Tokenizer with default configuration and keyword support.
@@ -1682,37 +1688,38 @@ func (t *Tokenizer) readPunctuation() (models.Token, error) {
 
 // toSQLPosition converts an internal Position => a models.Location
 func (t *Tokenizer) toSQLPosition(pos Position) models.Location {
-	// Find the line containing pos
-	line := 1
-	lineStart := 0
-
-	// Find the line number using lineStarts
-	for i := 0; i < len(t.lineStarts); i++ {
-		if t.lineStarts[i] > pos.Index {
-			break
-		}
-		line = i + 1
-		lineStart = t.lineStarts[i]
+	lineIdx := 0
+	from := 0
+	column := 1
+	if t.posCacheValid && pos.Index >= t.posCacheIndex {
+		lineIdx = t.posCacheLine
+		from = t.posCacheIndex
+		column = t.posCacheCol
 	}
 
-	// Calculate column by counting characters from line start
-	// Column is 1-based, so we start at 1
-	column := 1
-	for i := lineStart; i < pos.Index && i < len(t.input); i++ {
+	// Advance to the line containing pos
+	for lineIdx+1 < len(t.lineStarts) && t.lineStarts[lineIdx+1] <= pos.Index {
+		lineIdx++
+		from = t.lineStarts[lineIdx]
+		column = 1
+	}
+
+	// Count characters from the resume point (column is 1-based, tab counts 4)
+	for i := from; i < pos.Index && i < len(t.input); i++ {
 		if t.input[i] == '\t' {
-			column += 4 // Treat tab as 4 spaces
+			column += 4
 		} else {
 			column++
 		}
 	}
 
-	// Ensure column is never less than 1
-	if column < 1 {
-		column = 1
-	}
+	t.posCacheValid = true
+	t.posCacheIndex = pos.Index
+	t.posCacheLine = lineIdx
+	t.posCacheCol = column
 
 	return models.Location{
-		Line:   line,
+		Line:   lineIdx + 1,
 		Column: column,
 	}
 }
